@@ -141,6 +141,9 @@ pub enum Alt {
     NodeSwap { list: L, pos: usize },
     NodeInsert { list: L, pos: usize },
     RemoveSection(Sec),
+    /// Move one hash byte between two adjacent nodes of a list (33 + 31 or 31 + 33 bytes): the
+    /// concatenation the parent hash is computed over stays the same when the two are siblings.
+    NodeHashShift { list: L, pos: usize, to_lower: bool },
 }
 
 impl Alt {
@@ -251,6 +254,10 @@ pub fn alterations(p: &PProof) -> (Vec<Alt>, u64) {
                 out.push(Alt::NodeDup { list, pos });
                 if pos + 1 < nodes.len() {
                     out.push(Alt::NodeSwap { list, pos });
+                    if node.hash.len() == 32 && nodes[pos + 1].hash.len() == 32 {
+                        out.push(Alt::NodeHashShift { list, pos, to_lower: true });
+                        out.push(Alt::NodeHashShift { list, pos, to_lower: false });
+                    }
                 }
             }
             for pos in 0..=nodes.len() {
@@ -425,6 +432,21 @@ pub fn apply_alt(p: &mut PProof, a: &Alt) -> bool {
         Alt::NodeSwap { list, pos } => match p.list_mut(*list) {
             Some(nodes) if *pos + 1 < nodes.len() => {
                 nodes.swap(*pos, *pos + 1);
+                true
+            }
+            _ => false,
+        },
+        Alt::NodeHashShift { list, pos, to_lower } => match p.list_mut(*list) {
+            Some(nodes) if *pos + 1 < nodes.len() && !nodes[*pos].hash.is_empty() && !nodes[*pos + 1].hash.is_empty() => {
+                // lower = the node with the smaller tree index (the left one when they are siblings)
+                let (lo, hi) = if nodes[*pos].index < nodes[*pos + 1].index { (*pos, *pos + 1) } else { (*pos + 1, *pos) };
+                if *to_lower {
+                    let b = nodes[hi].hash.remove(0);
+                    nodes[lo].hash.push(b);
+                } else {
+                    let b = nodes[lo].hash.pop().unwrap();
+                    nodes[hi].hash.insert(0, b);
+                }
                 true
             }
             _ => false,
